@@ -57,6 +57,9 @@ def vSlashPath : Str := 47 :: vPath
 def vHost : Str := [36, 104, 111, 115, 116]
 def slash : Str := [47]
 
+/-- ASCII lower case of one byte -/
+def lowerByte (c : UInt8) : UInt8 := if 65 ≤ c && c ≤ 90 then c + 32 else c
+
 /-! ### `net/url` escaping -/
 
 inductive Mode where
